@@ -34,6 +34,10 @@ Definition named (here : list key) (o : sop D) : list (list key) :=
   match o with
   | OpAdd _ k _ => [here ++ [k]]
   | OpMove _ src tgt => [here ++ [src]; tgt ++ [src]]
+  (* a nested source: the source subtree, and everything at or below the first key of the source under the
+     target (the established intermediate directories and the attached node); the target node itself exists
+     (movep_target_exists), so nothing is created above that key *)
+  | OpMoveP _ src tgt => [here ++ src; tgt ++ firstn 1 src]
   | OpGenerate _ k _ _ => [here ++ [k]]
   | OpDivide _ m ds _ => (here ++ [m]) :: map (fun d => here ++ [fst (fst d)]) ds
   | OpDelete _ k => [here ++ [k]]
@@ -238,6 +242,229 @@ Proof.
     + apply Forall_aset; auto.
 Qed.
 
+(* ---- prefixes ---- *)
+Lemma sw_app_l pre a b : starts_with (pre ++ a) (pre ++ b) = starts_with a b.
+Proof.
+  induction pre as [|x pre IH]; cbn [app]; [reflexivity|].
+  rewrite sw_cons, N.eqb_refl. exact IH.
+Qed.
+
+Lemma sw_true_iff p : forall q, starts_with q p = true <-> exists r, q = p ++ r.
+Proof.
+  induction p as [|x p IH]; intros q.
+  - rewrite sw_nil. split; [intros _; exists q; reflexivity|reflexivity].
+  - destruct q as [|y q].
+    + rewrite sw_nil_cons. split; [discriminate|]. intros (r & Hr). discriminate Hr.
+    + rewrite sw_cons, andb_true_iff, N.eqb_eq, IH. split.
+      * intros [-> (r & ->)]. exists r. reflexivity.
+      * intros (r & Hr). cbn [app] in Hr. inversion Hr; subst. split; [reflexivity|]. exists r. reflexivity.
+Qed.
+
+(* a prefix of an extension of a: comparable with a *)
+Lemma sw_ext a : forall r b, starts_with (a ++ r) b = true -> starts_with a b = true \/ starts_with b a = true.
+Proof.
+  induction a as [|x a IH]; intros r b H.
+  - right. apply sw_nil.
+  - destruct b as [|y b]; [left; apply sw_nil|].
+    cbn [app] in H. rewrite sw_cons in H. apply andb_true_iff in H. destruct H as [Hxy H].
+    rewrite !sw_cons. rewrite Hxy. apply N.eqb_eq in Hxy. subst y. rewrite N.eqb_refl. cbn [andb].
+    apply (IH r b H).
+Qed.
+
+Lemma sw_prefix_true q a b : starts_with q (a ++ b) = true -> starts_with q a = true.
+Proof.
+  rewrite !sw_true_iff. intros (r & ->). exists (b ++ r). rewrite app_assoc. reflexivity.
+Qed.
+
+Lemma sw_prefix_false q a b : starts_with q a = false -> starts_with q (a ++ b) = false.
+Proof.
+  intros H. destruct (starts_with q (a ++ b)) eqn:E; [|reflexivity].
+  apply sw_prefix_true in E. congruence.
+Qed.
+
+Lemma cget_app t p : forall r, cget t (p ++ r) = match cget t p with Some x => cget x r | None => None end.
+Proof.
+  revert t. induction p as [|k p IH]; intros t r; [reflexivity|].
+  cbn [app]. destruct t as [u v d|u pi|u g c]; try reflexivity.
+  rewrite !cget_cons. destruct (alookup k c) as [ch|]; [apply IH|reflexivity].
+Qed.
+
+Lemma cwf_cget t p : forall x, cwf t -> cget t p = Some x -> cwf x.
+Proof.
+  revert t. induction p as [|k p IH]; intros t x Hw H.
+  - cbn in H. inversion H; subst. exact Hw.
+  - destruct t as [u v d|u pi|u g c]; try discriminate H.
+    rewrite cget_cons in H. destruct (alookup k c) as [ch|] eqn:El; [|discriminate H].
+    apply (IH ch x (cwf_child u g c k ch Hw El) H).
+Qed.
+
+(* removing at p leaves every subtree at a path incomparable with p as it is *)
+Lemma cdel_cget_other t p t' q :
+  cdel t p = Ok t' -> starts_with q p = false -> starts_with p q = false -> cget t' q = cget t q.
+Proof.
+  revert t t' q. induction p as [|k r IH]; intros t t' q H Hs1 Hs2.
+  - rewrite sw_nil in Hs1. discriminate Hs1.
+  - apply cdel_shape in H. destruct H as (u & g & c & -> & Hc).
+    destruct q as [|k' q']; [rewrite sw_nil in Hs2; discriminate Hs2|].
+    rewrite sw_cons in Hs1, Hs2.
+    destruct Hc as [[-> ->]|[(Hr & Hl & ->)|(Hr & ch & ch' & Hl & Hd & ->)]]; [| reflexivity |].
+    + rewrite sw_nil, andb_true_r in Hs1. apply N.eqb_neq in Hs1.
+      rewrite !cget_cons, (alookup_aremove_neq k k' c Hs1). reflexivity.
+    + rewrite !cget_cons. destruct (N.eqb k k') eqn:E.
+      * apply N.eqb_eq in E. subst k'. rewrite N.eqb_refl in Hs2. cbn [andb] in Hs1, Hs2.
+        rewrite alookup_aset_eq, Hl. apply (IH ch ch' q' Hd Hs1 Hs2).
+      * apply N.eqb_neq in E. rewrite (alookup_aset_neq k k' ch' c E). reflexivity.
+Qed.
+
+(* ---- Store._establish_path ---- *)
+Lemma cestablish_shape t k r uid t' uid' :
+  cestablish t (k :: r) uid = Ok (t', uid') ->
+  exists u g c x, t = CDir u g c /\ t' = CDir u g (aset k x c) /\
+    ((exists ch, alookup k c = Some ch /\ cestablish ch r uid = Ok (x, uid')) \/
+     (alookup k c = None /\ cestablish (CDir uid false []) r (N.succ uid) = Ok (x, uid'))).
+Proof.
+  intros H. destruct t as [u v d|u pi|u g c]; try discriminate H.
+  exists u, g, c.
+  change (cestablish (CDir u g c) (k :: r) uid)
+    with (match alookup k c with
+          | Some ch => rbind (cestablish ch r uid) (fun x => Ok (CDir u g (aset k (fst x) c), snd x))
+          | None => rbind (cestablish (CDir uid false []) r (N.succ uid))
+                          (fun x => Ok (CDir u g (aset k (fst x) c), snd x))
+          end) in H.
+  destruct (alookup k c) as [ch|] eqn:El.
+  - destruct (cestablish ch r uid) as [[x u1]|e] eqn:Ec; cbn [rbind fst snd] in H; [|discriminate H].
+    inversion H; subst. exists x. split; [reflexivity|]. split; [reflexivity|]. left. exists ch. auto.
+  - destruct (cestablish (CDir uid false []) r (N.succ uid)) as [[x u1]|e] eqn:Ec;
+      cbn [rbind fst snd] in H; [|discriminate H].
+    inversion H; subst. exists x. split; [reflexivity|]. split; [reflexivity|]. right. auto.
+Qed.
+
+(* the walk only looks at the nodes ON the path: the subtree at any q that is not a prefix of p is as it was *)
+Lemma cestablish_cget_off p : forall t uid t' uid' q,
+  cestablish t p uid = Ok (t', uid') -> starts_with p q = false -> cget t' q = cget t q.
+Proof.
+  induction p as [|k r IH]; intros t uid t' uid' q H Hs.
+  - cbn in H. inversion H; subst. reflexivity.
+  - apply cestablish_shape in H. destruct H as (u & g & c & x & -> & -> & Hc).
+    destruct q as [|k' q']; [rewrite sw_nil in Hs; discriminate Hs|].
+    rewrite sw_cons in Hs. rewrite !cget_cons.
+    destruct (N.eqb k' k) eqn:E.
+    + apply N.eqb_eq in E. subst k'. cbn [andb] in Hs. rewrite alookup_aset_eq.
+      destruct Hc as [(ch & Hl & He)|(Hl & He)]; rewrite Hl.
+      * apply (IH _ _ _ _ _ He Hs).
+      * rewrite (IH _ _ _ _ _ He Hs). destruct q'; [rewrite sw_nil in Hs; discriminate Hs|]. reflexivity.
+    + apply N.eqb_neq in E. rewrite alookup_aset_neq by congruence. reflexivity.
+Qed.
+
+(* it only adds nodes: every node of t keeps its place, its uid and its value *)
+Lemma cestablish_sig_keep p : forall t uid t' uid' q,
+  cestablish t p uid = Ok (t', uid') -> cget t q <> None -> sig_at t' q = sig_at t q.
+Proof.
+  induction p as [|k r IH]; intros t uid t' uid' q H Hne.
+  - cbn in H. inversion H; subst. reflexivity.
+  - apply cestablish_shape in H. destruct H as (u & g & c & x & -> & -> & Hc).
+    destruct q as [|k' q']; [reflexivity|].
+    rewrite !sig_at_cons. rewrite cget_cons in Hne.
+    destruct (N.eqb k' k) eqn:E.
+    + apply N.eqb_eq in E. subst k'. rewrite alookup_aset_eq.
+      destruct Hc as [(ch & Hl & He)|(Hl & He)]; rewrite Hl in Hne |- *.
+      * apply (IH _ _ _ _ _ He Hne).
+      * congruence.
+    + apply N.eqb_neq in E. rewrite alookup_aset_neq by congruence. reflexivity.
+Qed.
+
+Theorem cestablish_keeps p t uid t' uid' q s :
+  cestablish t p uid = Ok (t', uid') -> sig_at t q = Some s -> sig_at t' q = Some s.
+Proof.
+  intros H Hs. rewrite (cestablish_sig_keep p t uid t' uid' q H); [exact Hs|].
+  intros Hn. apply cget_None_sig in Hn. congruence.
+Qed.
+
+(* outside the path, or at a node that exists: identity and value are kept *)
+Lemma cestablish_frame p t uid t' uid' q :
+  cestablish t p uid = Ok (t', uid') -> cget t q <> None \/ starts_with p q = false ->
+  sig_at t' q = sig_at t q.
+Proof.
+  intros H [Hne|Hs]; [apply (cestablish_sig_keep p t uid t' uid' q H Hne)|].
+  unfold sig_at. rewrite (cestablish_cget_off p t uid t' uid' q H Hs). reflexivity.
+Qed.
+
+Lemma cestablish_mono p : forall t uid t' uid', cestablish t p uid = Ok (t', uid') -> (uid <= uid')%N.
+Proof.
+  induction p as [|k r IH]; intros t uid t' uid' H.
+  - cbn in H. inversion H; subst. lia.
+  - apply cestablish_shape in H. destruct H as (u & g & c & x & -> & -> & Hc).
+    destruct Hc as [(ch & Hl & He)|(Hl & He)]; apply IH in He; lia.
+Qed.
+
+Lemma cestablish_root p t uid t' uid' : cestablish t p uid = Ok (t', uid') -> csig t' = csig t.
+Proof.
+  intros H. destruct p as [|k r].
+  - cbn in H. inversion H; subst. reflexivity.
+  - apply cestablish_shape in H. destruct H as (u & g & c & x & -> & -> & _). reflexivity.
+Qed.
+
+(* the nodes it creates carry fresh uids: those from `uid` up to the returned counter *)
+Theorem cestablish_fresh p : forall t uid t' uid' q n,
+  cestablish t p uid = Ok (t', uid') -> cget t q = None -> cget t' q = Some n ->
+  (uid <= cuid n < uid')%N.
+Proof.
+  induction p as [|k r IH]; intros t uid t' uid' q n H Hn Hs.
+  - cbn in H. inversion H; subst. congruence.
+  - apply cestablish_shape in H. destruct H as (u & g & c & x & -> & -> & Hc).
+    destruct q as [|k' q']; [discriminate Hn|].
+    rewrite cget_cons in Hn, Hs.
+    destruct (N.eqb k' k) eqn:E.
+    + apply N.eqb_eq in E. subst k'. rewrite alookup_aset_eq in Hs.
+      destruct Hc as [(ch & Hl & He)|(Hl & He)]; rewrite Hl in Hn.
+      * apply (IH _ _ _ _ _ _ He Hn Hs).
+      * pose proof (cestablish_mono _ _ _ _ _ He) as Hm.
+        destruct q' as [|k2 q2].
+        -- cbn in Hs. inversion Hs; subst n.
+           pose proof (cestablish_root _ _ _ _ _ He) as Hr. apply (f_equal fst) in Hr.
+           cbn [csig fst cuid] in Hr. rewrite Hr. lia.
+        -- assert (Hn2 : cget (CDir uid false []) (k2 :: q2) = None) by reflexivity.
+           pose proof (IH _ _ _ _ _ _ He Hn2 Hs) as Hf. lia.
+    + apply N.eqb_neq in E. rewrite alookup_aset_neq in Hs by congruence. congruence.
+Qed.
+
+(* afterwards the path exists: every proper prefix is a directory, the end node is there *)
+Theorem cestablish_dirs p : forall t uid t' uid' q r,
+  cestablish t p uid = Ok (t', uid') -> p = q ++ r -> r <> [] ->
+  exists u g c, cget t' q = Some (CDir u g c).
+Proof.
+  induction p as [|k p' IH]; intros t uid t' uid' q r H Hp Hr.
+  - destruct q; destruct r; try discriminate Hp. congruence.
+  - apply cestablish_shape in H. destruct H as (u & g & c & x & -> & -> & Hc).
+    destruct q as [|k' q'].
+    + exists u, g, (aset k x c). reflexivity.
+    + cbn [app] in Hp. inversion Hp; subst k' p'. rewrite cget_cons, alookup_aset_eq.
+      destruct Hc as [(ch & Hl & He)|(Hl & He)]; apply (IH _ _ _ _ q' r He eq_refl Hr).
+Qed.
+
+Theorem cestablish_exists p : forall t uid t' uid',
+  cestablish t p uid = Ok (t', uid') -> cget t' p <> None.
+Proof.
+  induction p as [|k r IH]; intros t uid t' uid' H; [discriminate|].
+  apply cestablish_shape in H. destruct H as (u & g & c & x & -> & -> & Hc).
+  rewrite cget_cons, alookup_aset_eq.
+  destruct Hc as [(ch & Hl & He)|(Hl & He)]; apply (IH _ _ _ _ He).
+Qed.
+
+Lemma cestablish_cwf p : forall t uid t' uid', cwf t -> cestablish t p uid = Ok (t', uid') -> cwf t'.
+Proof.
+  induction p as [|k r IH]; intros t uid t' uid' Hw H.
+  - cbn in H. inversion H; subst. exact Hw.
+  - apply cestablish_shape in H. destruct H as (u & g & c & x & -> & -> & Hc).
+    assert (Hx : cwf x).
+    { destruct Hc as [(ch & Hl & He)|(Hl & He)].
+      - apply (IH _ _ _ _ (cwf_child u g c k ch Hw Hl) He).
+      - apply (IH _ _ _ _ (cwf_dir uid false [] (NoDup_nil _) (Forall_nil _)) He). }
+    inversion Hw as [| |? ? ? Hnd Hall]; subst. constructor.
+    + apply aset_nodup. exact Hnd.
+    + apply Forall_aset; auto.
+Qed.
+
 
 (* ================= C09 ================= *)
 Lemma fold_err {X A} (G : res A -> X -> res A) :
@@ -333,6 +560,82 @@ Proof.
   exists u, g, c, node, t1. auto 10.
 Qed.
 
+(* a nested move: establish the leading part of the source path under the target, attach, delete the source *)
+Lemma movep_inv vr t here src tgt uid t' rp uid' :
+  apply_opv vr t here (OpMoveP D src tgt) uid = Ok (t', rp, uid') ->
+  exists node t0 t1, src <> [] /\ cget t (here ++ src) = Some node /\ cget t (tgt ++ src) = None /\
+    cestablish t (tgt ++ removelast src) uid = Ok (t0, uid') /\
+    cset t0 (tgt ++ src) node = Ok t1 /\ cdel t1 (here ++ src) = Ok t' /\
+    r_deletions rp = [here ++ src] /\
+    r_process rp = filter (fun pp => negb (pi_step (snd pp))) (proc_nodes node (tgt ++ src)).
+Proof.
+  intros H. open_op H Hd.
+  destruct src as [|s1 sr]; [discriminate H|].
+  destruct (cget t (here ++ s1 :: sr)) as [node|] eqn:Eg; [|discriminate H].
+  destruct (cget t tgt) as [tn|] eqn:Et; [|discriminate H].
+  destruct (cget t (tgt ++ s1 :: sr)) as [y|] eqn:Eg2; [discriminate H|].
+  dres H tu Ee. dres H t1 Ec. dres H t2 Ed. destruct tu as [t0 u0]. cbn [fst snd] in *.
+  inversion H; subst. exists node, t0, t1. cbn [r_deletions r_process].
+  split; [discriminate|]. auto 10.
+Qed.
+
+(* Store.move looks the target up with get_path: it is there *)
+Lemma movep_target_exists vr t here src tgt uid t' rp uid' :
+  apply_opv vr t here (OpMoveP D src tgt) uid = Ok (t', rp, uid') -> cget t tgt <> None.
+Proof.
+  intros H. open_op H Hd.
+  destruct src as [|s1 sr]; [discriminate H|].
+  destruct (cget t (here ++ s1 :: sr)) as [node|] eqn:Eg; [|discriminate H].
+  destruct (cget t tgt) as [tn|] eqn:Et; [discriminate|discriminate H].
+Qed.
+
+Lemma snoc_not_nil {A} (l : list A) (x : A) : l ++ [x] <> [].
+Proof. destruct l; discriminate. Qed.
+
+Lemma app_not_nil_r {A} (l r : list A) : r <> [] -> l ++ r <> [].
+Proof. intros Hr H. apply app_eq_nil in H. destruct H as [_ H]. exact (Hr H). Qed.
+
+(* the frame of a nested move: outside the source and the attached subtree, at a node that exists or off the
+   established path, identity and value are kept *)
+Lemma movep_frame_gen vr t here src tgt uid t' rp uid' q :
+  apply_opv vr t here (OpMoveP D src tgt) uid = Ok (t', rp, uid') ->
+  starts_with q (here ++ src) = false -> starts_with q (tgt ++ src) = false ->
+  cget t q <> None \/ starts_with (tgt ++ removelast src) q = false ->
+  sig_at t' q = sig_at t q.
+Proof.
+  intros H Hs1 Hs2 Hor. apply movep_inv in H.
+  destruct H as (node & t0 & t1 & _ & _ & _ & He & Hc & Hdl & _ & _).
+  rewrite (cdel_frame _ _ _ q Hdl Hs1), (cset_frame _ _ _ _ q Hc Hs2).
+  apply (cestablish_frame _ _ _ _ _ q He Hor).
+Qed.
+
+Lemma firstn1_prefix (l : list key) : l = firstn 1 l ++ skipn 1 l.
+Proof. symmetry. apply firstn_skipn. Qed.
+
+(* the target node is in place: nothing is created above the first key of the source *)
+Lemma movep_frame_tight vr t here src tgt uid t' rp uid' q :
+  apply_opv vr t here (OpMoveP D src tgt) uid = Ok (t', rp, uid') ->
+  outside q (named here (OpMoveP D src tgt)) -> sig_at t' q = sig_at t q.
+Proof.
+  intros H Hout. pose proof (movep_target_exists _ _ _ _ _ _ _ _ _ H) as Htg. cbn [named] in Hout.
+  assert (Hs1 : starts_with q (here ++ src) = false) by (apply Hout; left; reflexivity).
+  assert (Hs2 : starts_with q (tgt ++ firstn 1 src) = false) by (apply Hout; right; left; reflexivity).
+  apply (movep_frame_gen _ _ _ _ _ _ _ _ _ q H Hs1).
+  - rewrite (firstn1_prefix src), app_assoc. apply sw_prefix_false. exact Hs2.
+  - destruct (starts_with (tgt ++ removelast src) q) eqn:E; [left|right; reflexivity].
+    pose proof E as E0. apply sw_ext in E. destruct E as [E|E].
+    + (* q is a prefix of the target: it exists *)
+      apply sw_true_iff in E. destruct E as (r & Hr). intros Hn. apply Htg.
+      rewrite Hr, cget_app, Hn. reflexivity.
+    + (* q = tgt ++ r with r a prefix of removelast src: r = [] as q is not under tgt ++ [s1] *)
+      apply sw_true_iff in E. destruct E as (r & ->).
+      destruct r as [|k r']; [rewrite app_nil_r; exact Htg|]. exfalso.
+      rewrite sw_app_l in E0. destruct src as [|s1 [|s2 sr]]; [discriminate E0|discriminate E0|].
+      change (removelast (s1 :: s2 :: sr)) with (s1 :: removelast (s2 :: sr)) in E0.
+      rewrite sw_cons in E0. apply andb_true_iff in E0. destruct E0 as [Ek _].
+      apply N.eqb_eq in Ek. subst k. cbn [firstn] in Hs2.
+      rewrite sw_app_l, sw_cons, N.eqb_refl, sw_nil in Hs2. discriminate Hs2.
+Qed.
 Lemma divide_inv vr t here m ds ch uid t' rp uid' :
   apply_opv vr t here (OpDivide D m ds ch) uid = Ok (t', rp, uid') ->
   exists t1 rp1,
@@ -367,12 +670,13 @@ Qed.
 Theorem apply_op_frame vr t here o uid t' rp uid' q :
   apply_opv vr t here o uid = Ok (t', rp, uid') -> outside q (named here o) -> sig_at t' q = sig_at t q.
 Proof.
-  intros H Hout. destruct o as [k st|src tgt|k d init|m ds ch|k|p].
+  intros H Hout. destruct o as [k st|src tgt|src tgt|k d init|m ds ch|k|p].
   - apply add_inv in H. destruct H as (nd & Hs).
     apply (cset_frame _ _ _ _ _ Hs). apply Hout. left. reflexivity.
   - apply move_inv in H. destruct H as (u & g & c & node & t1 & _ & _ & _ & Hdl & Hs & _ & _).
     rewrite (cset_frame _ _ _ _ q Hs) by (apply Hout; right; left; reflexivity).
     apply (cdel_frame _ _ _ _ Hdl). apply Hout. left. reflexivity.
+  - apply (movep_frame_tight _ _ _ _ _ _ _ _ _ q H Hout).
   - apply generate_inv in H. destruct H as (r & _ & Hs & _).
     apply (cset_frame _ _ _ _ _ Hs). apply Hout. left. reflexivity.
   - apply divide_inv in H. destruct H as (t1 & rp1 & Hc & Hdl & _).
@@ -454,9 +758,6 @@ Proof.
     + rewrite fold_err in H by reflexivity. discriminate H.
 Qed.
 
-
-Lemma snoc_not_nil {A} (l : list A) (x : A) : l ++ [x] <> [].
-Proof. destruct l; discriminate. Qed.
 
 (* _add: rejected on an existing key; otherwise the child exists afterwards *)
 Theorem add_existing_rejected vr t here k st uid u g c x :
